@@ -50,9 +50,12 @@ META = {
         "regenerated graph of the real function (C16)",
         "quantities/prices are exact multiples of 1/4096 in the correspondence stream, so Python float arithmetic, comparison, "
         "round(x, 3), float(str) and str(float) are exact and in plain notation; the model does not render str(float) "
-        "(numeric tags are compared by value); nan is None in the model",
-        "validation against the FIX 4.4 dictionary and processing by the order object are decided by the oracle on the real "
-        "FIXSchema.validate / process_execution_report (differential), not by a theorem",
+        "(numeric tags are compared by value); separately the model's exact binary-fraction printer print_q 12 (the renderer "
+        "of theorem C20_exec_report_validates_printed) is compared with the texts str(float) produced, on every accepted "
+        "fabrication of the exact stream (projection rendered-text); nan is None in the model",
+        "dictionary validity has theorems on the composition of C15's validate model with C19's validate_value model over "
+        "the regenerated FIX44 tables (Props/C20.v, last section); the oracle keeps deciding it on the real "
+        "FIXSchema.validate for every fabricated message; processing by the real order object is decided by the oracle",
         "session fidelity is differential (implementation vs implementation, in-memory transport, no timer tasks)",
     ],
     "assumptions": [
@@ -154,6 +157,15 @@ def proj_msg(m):
             out.append([int(t), 1, num(v)])
         else:
             out.append([int(t), 0, codes(v)])
+    return out
+
+
+def rendered(m):
+    out = []
+    for t, v in m.tags.items():
+        if t in NUMTAGS and re.fullmatch(r"-?\d+", v):
+            v = v + ".0"
+        out.append([codes(t), codes(v)])
     return out
 
 
@@ -334,6 +346,12 @@ class Hist:
             self.breach("fix_exec_report_msg raised %s (neither a message nor AssertionError)" % impl[1], None, {"fab": a})
         if m is None:
             return None
+        if self.exact and snap_exact(snap) and all(isinstance(f[2], int) or f[1] == 0 for f in impl[1]):
+            # tie of the model's renderer (Fix/TesterPrint.v: tag text = str(tag), numbers by print_q 12, the printer of
+            # theorem C20_exec_report_validates_printed) to the texts Python put into the message: str(float) on the exact
+            # stream; a value that is a Python int (leaves_qty = 0 after a REJECTED cancel reject) prints without ".0"
+            self.ctx.count("rendered-text-compared")
+            self.model_reqs.append((sx([7, 12, impl[1]]), rendered(m), self.case({"fab": a, "order": snap}), "rendered-text"))
         self.oracle_fab(k, o, snap, a, m, had_oid)
         if deliver:
             osnap = snap_order(o)
